@@ -398,7 +398,7 @@ def confirm(chk, mine, steps, inits, cat_path, byw):
 
 
 def slim(o):
-    return {k: o[k] for k in ("w", "n", "op", "act", "q", "cl", "ctl", "seen", "annB", "annL", "ips", "l2", "peers", "rep", "fresh")
+    return {k: o[k] for k in ("w", "n", "op", "act", "q", "cl", "ctl", "seen", "annB", "annL", "ips", "l2", "peers", "rep", "fresh", "since", "errS", "sf", "setFailed", "startFailedN")
             if k in o}
 
 
